@@ -4,6 +4,7 @@
 (* erased: MPI leading zero bits / declared bit counts, (unhashed) subpacket length encodings.     *)
 (* Everything else must be kept octet for octet.                                                   *)
 EXTENDS Subpackets, Encrypt
+OpsOK(b) == Len(b) = 13 /\ b[1] = 3
 SubNorm(area) == LET s == SubSplit(area) IN IF ~s.ok THEN <<<<-1>>, area>> ELSE [k \in 1..Len(s.sps) |-> <<s.sps[k].type, IF s.sps[k].critical THEN 1 ELSE 0>> \o s.sps[k].body]
 RECURSIVE MpiMags(_, _, _, _)
 MpiMags(b, p, n, acc) == IF n = 0 THEN [mags |-> acc, next |-> p] ELSE LET d == MPIDecAt(b, p) IN IF ~d.ok THEN [mags |-> Append(acc, <<-1>>), next |-> Len(b) + 1] ELSE MpiMags(b, d.next, n - 1, Append(acc, d.mag))
@@ -22,5 +23,39 @@ PkeskNorm(b) ==
   IF ~f.ok THEN <<b>>
   ELSE IF f.pk \in {1, 2} THEN <<SubSeq(b, 1, 10)>> \o MpiMags(f.rest, 1, 1, <<>>).mags
   ELSE <<b>>
+
+\* ---- body grammars (RFC 4880 section 5): is this body a well-formed packet of its tag? -----------------------------
+\* version 3 signature (5.2.2): 03, 05, type, time(4), key id(8), pk, hash, left16, MPIs
+Sig3OK(b) == Len(b) >= 19 /\ b[1] = 3 /\ b[2] = 5 /\
+             LET r == MPISeqFrom(b, 20, NSigMPI(b[16]), <<>>) IN NSigMPI(b[16]) = 0 \/ (r.ok /\ r.next = Len(b) + 1)
+\* secret part of a v4 key after the public fields (5.5.3)
+SecretOK(b) ==
+  LET p == PubEnd(b) IN
+  IF p = 0 \/ p > Len(b) THEN FALSE
+  ELSE LET u == b[p] IN
+    IF u = 0 THEN Len(b) >= p + 2                                             \* cleartext MPIs then a two-octet checksum
+    ELSE IF u \in {254, 255} THEN
+      Len(b) >= p + 3 /\
+      (IF b[p + 2] = 101 THEN Len(b) >= p + 7 /\ SubSeq(b, p + 3, p + 6) = <<0, 71, 78, 85>>      \* GNU extension: 00 "GNU" n
+       ELSE b[p + 2] \in {0, 1, 3} /\ BlockLen(b[p + 1]) > 0 /\
+            Len(b) > p + 1 + (IF b[p + 2] = 0 THEN 2 ELSE IF b[p + 2] = 1 THEN 10 ELSE 11) + BlockLen(b[p + 1]))
+    ELSE BlockLen(u) > 0 /\ Len(b) > p + BlockLen(u)                           \* legacy: cipher id directly, IV, data
+UAttrOK(b) == LET s == SubSplit(b) IN s.ok /\ Len(s.sps) >= 1
+BodyWF(tag, b) ==
+  CASE tag = 1 -> LET f == PkeskFields(b) IN f.ok /\ (f.pk \in {1, 2} => PkeskRsaOK(f)) /\ (f.pk = 18 => PkeskEcdh(f).ok)
+    [] tag = 2 -> IF Len(b) > 0 /\ b[1] = 4 THEN SigWF(b) ELSE IF Len(b) > 0 /\ b[1] = 3 THEN Sig3OK(b) ELSE Len(b) > 0
+    [] tag = 3 -> SkeskFields(b).ok
+    [] tag = 4 -> OpsOK(b)
+    [] tag \in {6, 14} -> IF Len(b) > 0 /\ b[1] = 4 THEN IsPublicKeyBody(b) ELSE Len(b) > 0
+    [] tag \in {5, 7} -> IF Len(b) > 0 /\ b[1] = 4 THEN SecretOK(b) ELSE Len(b) > 0
+    [] tag = 8 -> Len(b) >= 1 /\ b[1] \in {0, 1, 2, 3}
+    [] tag = 9 -> Len(b) >= 1
+    [] tag = 10 -> b = <<80, 71, 80>>
+    [] tag = 11 -> Len(b) >= 6 /\ 6 + b[2] <= Len(b)
+    [] tag = 13 -> TRUE
+    [] tag = 17 -> UAttrOK(b)
+    [] tag = 18 -> Len(b) >= 1 /\ b[1] = 1
+    [] tag = 19 -> Len(b) = 20
+    [] OTHER -> TRUE
 Norm(tag, b) == IF tag = 2 THEN SigNorm(b) ELSE IF tag \in {5, 6, 7, 14} THEN KeyNorm(b) ELSE IF tag = 1 THEN PkeskNorm(b) ELSE <<b>>
 =============================================================================
